@@ -46,9 +46,26 @@ class KernelStub(Stub):
         if isinstance(beta, A):
             d, t = self.v["dph"], self.v["th"]
             return A(beta.axes, d.e, beta.dom), A(beta.axes, t.e, beta.dom)
-        # native: the abstract kernel values of exactly the events passed (matched through beta)
-        idx = [int(np.argmin(np.abs(self.v["beta"] - b))) for b in np.atleast_1d(beta)]
-        return self.v["dph"][idx], self.v["th"][idx]
+        # native: a fixed function of the five values of each event it is given (sequences zipped as the real __call__ does)
+        return kernel_fn(beta, alt, E, lat, lon)
+
+
+def kernel_fn(beta, alt, E, lat, lon):
+    """native stand-in for the kernel: any injective-enough function of an event's own five inputs will do; sequences of different
+    length are truncated to the shortest, as zip() in the real CphotAng.__call__ does"""
+    cols = [np.atleast_1d(np.asarray(x, dtype=float)) for x in (beta, alt, E, lat, lon)]
+    n = min(len(c) for c in cols)
+    b, a, e, la, lo = [c[:n] for c in cols]
+    d = 1e3 * (1.5 + np.sin(3.0 * b + 0.7 * a + la - 0.3 * lo)) * np.abs(e) ** 0.25
+    t = 1.0 + 0.4 * np.cos(2.0 * b - 0.2 * a + 0.5 * la + lo) + 0.02 * np.log10(np.abs(e) + 1e-30)
+    return d, t
+
+
+def eas_post_native(rng, v):
+    """native inputs: the abstract kernel values of each event are the stand-in kernel's values for that event's own inputs"""
+    v = dict(v)
+    v["dph"], v["th"] = kernel_fn(v["beta"], v["alt"], v["E"], v["lat"], v["lon"])
+    return v
 
 
 def call_eas(eas, v):
@@ -228,7 +245,9 @@ def run_dependency(ck):
                 notes.append("photon density depends on the detector altitude other than through one multiplicative factor: %s" % den)
             else:
                 hy = hyps + [c for c in p.pc if not any(s_ in Dep.CTL for s_ in c.free_symbols)]
-                bsub = sp.pi / 180 if any(str(c) == "betaE < pi/180" for c in p.pc) else beta
+                # the clamped angle max(beta, 1 deg), resolved by the path's own branch conditions (whatever form the clamp takes in the code)
+                lt, ge = prover.z3_prove(hy, sp.Lt(beta, sp.pi / 180), timeout_ms=5000).status == "proved", prover.z3_prove(hy, sp.Ge(beta, sp.pi / 180), timeout_ms=5000).status == "proved"
+                bsub = sp.pi / 180 if lt else (beta if ge else sym.Ite(sp.Lt(beta, sp.pi / 180), sp.pi / 180, beta))
                 want = (d_spec(R, bsub, alt, orbit) / d_spec(R, bsub, alt, Dep.TRACK)) ** 2
                 if (den.factor, want) in seen:
                     continue
@@ -294,6 +313,7 @@ def stage(ck, full=False):
     qn = "eas:EAS.__call__"
     ev = {"beta": (0.0, 0.7330382858376184), "alt": (-5.0, 40.0), "E": (1e-5, 1e4), "lat": (-1.5, 1.5), "lon": (-3.1, 3.1), "dph": (0.0, 1e6), "th": (0.0, 10.0)}
     sc = Scenario(qn, build_eas, events=ev, scalars={"area": (1e-3, 100.0), "qe": (1e-3, 1.0), "thr": (1e-2, 1e3)})
+    sc.post_native = eas_post_native
     fc = FunctionCheck(ck, qn, sc, spec_eas, ["numPEs", "costhetaChEff", "stored_names", "kernel_called_once"])
     fc.explore().obligations()
     kernel_call_obligations(ck, fc, qn)
